@@ -24,6 +24,8 @@ type Client struct {
 	catchUpChunkSize      uint64
 	nonFinalisedLogs      map[uint64]*StateUpdate
 	listener              EventListener
+	// pendingUpdates is the subscription channel while live updates are received.
+	pendingUpdates <-chan *StateUpdate
 }
 
 var _ service.Service = (*Client)(nil)
@@ -233,6 +235,7 @@ func (c *Client) watchL1StateUpdates(ctx context.Context) error {
 	// note(rdr): 128 is an arbitrary value
 	const buffer = 128
 	updateCh := make(chan *StateUpdate, buffer)
+	c.pendingUpdates = updateCh
 
 	sub := c.subscribeToUpdates(ctx, updateCh)
 	if sub == nil {
@@ -401,6 +404,19 @@ func (c *Client) catchUpL1HeadUpdates(ctx context.Context) error {
 	}
 }
 
+// drainPendingUpdates applies, without blocking, the state updates already buffered
+// in the subscription channel.
+func (c *Client) drainPendingUpdates() {
+	for {
+		select {
+		case stateUpdate := <-c.pendingUpdates:
+			c.applyStateUpdate(stateUpdate)
+		default:
+			return
+		}
+	}
+}
+
 // finalisedHeight blocks until the L1 finalised height is retrieved. If
 // context is cancelled, returns false
 func (c *Client) finalisedHeight(ctx context.Context) (uint64, bool) {
@@ -433,6 +449,13 @@ func (c *Client) setL1Head(ctx context.Context) error {
 	if !found {
 		return nil
 	}
+
+	// Apply everything the subscription has already delivered before judging finality.
+	// The finalised height was fetched after those updates were received (possibly
+	// long after: resubscription and the query above retry without reading the
+	// channel), so a removal notice still waiting there may concern a log that now
+	// looks finalised.
+	c.drainPendingUpdates()
 
 	// Get max finalised Starknet head.
 	var maxFinalisedNumber uint64
